@@ -72,8 +72,8 @@ def poly_obs(p):
 
 def track_obs(t):
     return {"id": t.id, "epoch": t.epoch, "predicted_bbox": u_obs(t.predicted_bbox), "observed_bbox": u_obs(t.observed_bbox),
-            "scene_id": t.scene_id, "length": t.length, "voting_type": repr(t.voting_type),
-            "custom_object_id": t.custom_object_id, "repr": repr(t)}
+            "scene_id": t.scene_id, "length": t.length, "voting_type": [repr(t.voting_type), str(t.voting_type)],
+            "custom_object_id": t.custom_object_id, "repr": [repr(t), str(t)]}
 
 
 def wasted_obs(t):
@@ -88,7 +88,7 @@ def vwasted_obs(t):
             "scene_id": t.scene_id, "length": t.length,
             "predicted_boxes": [u_obs(b) for b in t.predicted_boxes], "observed_boxes": [u_obs(b) for b in t.observed_boxes],
             "observed_features": [None if f is None else [jf(x) for x in f] for f in t.observed_features],
-            "repr": repr(t)}
+            "repr": repr(t), "str": str(t)}
 
 
 def kfs_obs(s):
@@ -151,6 +151,9 @@ class Vm:
             if k in ins:
                 kw[k] = ins[k]
         return kw
+
+    def op_module_exports(self, i):
+        return sorted(n for n in dir(self.S) if not n.startswith("_"))
 
     # ---- BoundingBox ----
     def op_bb_new(self, i):
@@ -246,7 +249,8 @@ class Vm:
         return poly_obs(self.get(i, "v", "Poly"))
 
     def op_poly_repr(self, i):
-        return repr(self.get(i, "v", "Poly"))
+        p = self.get(i, "v", "Poly")
+        return [repr(p), str(p)]
 
     # ---- functions ----
     def boxes(self, i, key, conv):
@@ -354,22 +358,22 @@ class Vm:
     def op_pmt_maha(self, i):
         m = self.S.PositionalMetricType.maha()
         self.put(i, m, "PMT")
-        return repr(m)
+        return [repr(m), str(m)]
 
     def op_pmt_iou(self, i):
         m = self.S.PositionalMetricType.iou(f32(i["threshold"]))
         self.put(i, m, "PMT")
-        return repr(m)
+        return [repr(m), str(m)]
 
     def op_vmt_euclidean(self, i):
         m = self.S.VisualSortMetricType.euclidean(f32(i["threshold"]))
         self.put(i, m, "VMT")
-        return repr(m)
+        return [repr(m), str(m)]
 
     def op_vmt_cosine(self, i):
         m = self.S.VisualSortMetricType.cosine(f32(i["threshold"]))
         self.put(i, m, "VMT")
-        return repr(m)
+        return [repr(m), str(m)]
 
     def op_stc_new(self, i):
         self.put(i, self.S.SpatioTemporalConstraints(), "STC")
@@ -510,7 +514,7 @@ class Vm:
                                          None if i.get("feature_quality") is None else f32(i["feature_quality"]),
                                          self.get(i, "box", "U"), i.get("custom_object_id"))
         self.put(i, o, "VObs")
-        return repr(o)
+        return [repr(o), str(o)]
 
     def op_set_new(self, i):
         self.put(i, self.S.VisualSortObservationSet(), "VSet")
@@ -520,6 +524,10 @@ class Vm:
         s = self.get(i, "v", "VSet")
         s.add(self.get(i, "obs", "VObs"))
         return None
+
+    def op_set_str(self, i):
+        s = self.get(i, "v", "VSet")
+        return [repr(s), str(s)]
 
     def op_vreq_new(self, i):
         self.put(i, self.S.VisualSortPredictionBatchRequest(), "VReq")
